@@ -1,3 +1,73 @@
-(* Props/C12.v -- property theorems only (filled in as the proofs land) *)
-From Coq Require Import ZArith.
-From Falcon Require Import Base.Res.
+(* Props/C12.v -- property theorems only.
+   "execution", "last_writer", "reaches", "loc_reads", "flow" are the specification notions of
+   Flow/RDSpec.v over the reference semantics Exec/Sem.v; reaching_definitions / use_def / def_use are the
+   models of Flow/RD.v, Flow/UseDef.v (tied to the Rust code by the case files);
+   the only hypothesis on the function is C15's structural invariant cfg_inv. *)
+From Coq Require Import ZArith List Bool.
+From Falcon Require Import Base.Res IL.Const IL.Expr IL.Func IL.Loc Exec.Sem
+     Flow.RD Flow.UseDef Flow.RDSpec Flow.RDProofs.
+Import ListNotations.
+Local Open Scope Z_scope.
+
+(* 1a. after executing a location, the last writer of every scalar is among the reported definitions
+       (all functions -- loops included --, all executions, all fuel) *)
+Theorem rd_sound : forall f m,
+  cfg_inv (f_cfg f) = true -> reaching_definitions f = Ok m ->
+  forall tr, execution f tr ->
+  forall pre it, prefix (pre ++ [it]) tr -> ti_executed it = true ->
+  forall x d, last_writer f (pre ++ [it]) x = Some d ->
+  exists s, rd_lookup m (ti_loc it) = Some s /\ In d s.
+Proof. exact (fun f m => rd_sound_max f MAX_STEPS m). Qed.
+Print Assumptions rd_sound.
+
+(* 1b. every reported assignment or load reaches the location along a path of the location graph on
+       which no later location is an assignment or load of the same scalar *)
+Theorem rd_precise : forall f m,
+  cfg_inv (f_cfg f) = true -> reaching_definitions f = Ok m ->
+  forall l s d x, rd_lookup m l = Some s -> In d s -> assign_or_load_of f d = Some x -> reaches f d l.
+Proof. exact (fun f m => rd_precise_max f MAX_STEPS m). Qed.
+Print Assumptions rd_precise.
+
+(* 2a. the use-definition chain of every location an execution reaches (instruction or taken edge,
+       executed or faulting) contains the last writer of every scalar it reads *)
+Theorem ud_contains_last_writer : forall f ud,
+  cfg_inv (f_cfg f) = true -> use_def f = Ok ud ->
+  forall tr, execution f tr ->
+  forall pre it, prefix (pre ++ [it]) tr ->
+  forall x d, loc_reads f (ti_loc it) x = true -> last_writer f pre x = Some d ->
+  In_ud ud (ti_loc it) d.
+Proof. exact (fun f ud => ud_contains_last_writer_max f MAX_STEPS ud). Qed.
+Print Assumptions ud_contains_last_writer.
+
+(* 2b. ... and so does the chain of every guarded edge whose guard is evaluated after an executed
+       location, taken or not *)
+Theorem ud_guards_contain_last_writer : forall f ud,
+  cfg_inv (f_cfg f) = true -> use_def f = Ok ud ->
+  forall tr, execution f tr ->
+  forall pre it, prefix (pre ++ [it]) tr -> ti_executed it = true ->
+  forall e, flow f (ti_loc it) e ->
+  forall x d, loc_reads f e x = true -> last_writer f (pre ++ [it]) x = Some d ->
+  In_ud ud e d.
+Proof. exact (fun f ud => ud_guards_contain_last_writer_max f MAX_STEPS ud). Qed.
+Print Assumptions ud_guards_contain_last_writer.
+
+(* 3. definition-use chains are exactly the inverse relation (no hypothesis on the function) *)
+Theorem du_inverse : forall f ud du,
+  use_def f = Ok ud -> def_use f = Ok du ->
+  forall l d, In_du du d l <-> In_ud ud l d.
+Proof. exact (fun f ud du => du_inverse_max f MAX_STEPS ud du). Qed.
+Print Assumptions du_inverse.
+
+(* the hypotheses are satisfiable: the two shapes the unrepaired code got wrong.
+     B0: x = x - 4 ; z = x + y      (one block, no successor) *)
+Definition sx := mks 1%N 32 None.
+Definition sy := mks 2%N 32 None.
+Definition sz := mks 3%N 32 None.
+Definition f_ex : func :=
+  mkfunc 0 (mkcfg [mkblock 0 2 [mkinstr 0 (OAssign sx (EBin Sub (EScalar sx) (EConst (mkc 32 4)))) None;
+                                mkinstr 1 (OAssign sz (EBin Add (EScalar sx) (EScalar sy))) None] []]
+                  [] 1 (Some 0) (Some 0)) None.
+Example ex_hyps : cfg_inv (f_cfg f_ex) = true /\
+  use_def f_ex = Ok [(LInstr 0 0, []); (LInstr 0 1, [LInstr 0 0])] /\
+  def_use f_ex = Ok [(LInstr 0 0, [LInstr 0 1]); (LInstr 0 1, [])].
+Proof. vm_compute. repeat split. Qed.
